@@ -118,7 +118,7 @@ def rel_target(link_dir, target, style=0):
 
 
 def add_links(tree, specs):
-    """Insert in-directory symlinks pointing to files, directories or dangling names (never to links)."""
+    """Insert in-directory symlinks pointing to files, directories, dangling names or links made earlier."""
     import copy
 
     tree = copy.deepcopy(tree)
@@ -127,6 +127,7 @@ def add_links(tree, specs):
         dirs = dirs_of(tree)
         ldir = dirs[di % len(dirs)]
         cands = [p for p, e in flat.items() if e[0] in ("f", "d")] + ["", "dangling", (ldir + "/" if ldir else "") + "nothere"]
+        cands += [p for p, e in flat.items() if e[0] == "l"]  # a link to a link made earlier (its own target is what counts)
         target = cands[ti % len(cands)]
         node = tree
         for s in [x for x in ldir.split("/") if x]:
